@@ -50,6 +50,26 @@ Section PhiMonotone.
     cbn. apply Qopp_le_compat. apply log10_monotone; [assumption|lra].
   Qed.
 
+  (** the same for two arbitrary instants (also before the last heartbeat, where the code
+      returns 0.0), using erfc <= 2 and log10 1 <= 0: phi is never negative *)
+  Lemma phi_monotone_all d t1 t2 :
+    (forall x, erfc x <= 2) -> log10 1 <= 0 ->
+    0 < d_min_std d -> t1 <= t2 ->
+    ext_le (phi d t1) (phi d t2).
+  Proof.
+    intros He2 Hl1 Hms Ht.
+    destruct (d_last d) as [l|] eqn:EL; [|unfold PhiModel.phi; rewrite EL; cbn; lra].
+    destruct (Qlt_le_dec (t1 - l) 0) as [N1|N1].
+    - unfold PhiModel.phi. rewrite EL. destruct (d_ivs d) as [|iv ivs]; [cbn; lra|].
+      destruct (Qlt_le_dec (t1 - l) 0) as [_|?]; [|lra].
+      destruct (Qlt_le_dec (t2 - l) 0) as [_|N2]; [cbn; lra|].
+      match goal with |- context [Qlt_le_dec 0 ?p] => destruct (Qlt_le_dec 0 p) as [P2|P2]; [|exact I];
+        assert (Hp1 : p <= 1) end.
+      { match goal with |- (1 # 2) * erfc ?z <= 1 => pose proof (He2 z) end. lra. }
+      cbn. pose proof (log10_monotone _ _ P2 Hp1). lra.
+    - apply phi_monotone; try assumption. intros l' E. rewrite EL in E. injection E as <-. lra.
+  Qed.
+
   (** consequence for the decision: once unavailable, unavailable until the next heartbeat *)
   Lemma unavailable_stays thr d t1 t2 :
     0 < d_min_std d ->
